@@ -496,6 +496,9 @@ func VH_C15_GrpcWriteRetry() {
 		got = append(got, m...)
 	}
 	vAssert(len(got) <= len(reported), "the reader obtained more bytes than the writer was told it had written (bytes of a write reported as failed were delivered later, or delivered twice)")
+	if errC == nil {
+		vAssert(len(got) == len(reported), "a write that reported success is not readable by the peer (a new record was started while an earlier one is only partly on the wire, or its key/nonce sequence is out of step)")
+	}
 	j := vInt("j")
 	if j >= 0 && j < len(got) && j < len(reported) {
 		vAssert(got[j] == reported[j], "the reader's stream differs from the concatenation of the reported writes")
